@@ -165,4 +165,26 @@ func init() {
 		g.p("/-- the arms of the select in `ChanRecvStop.Send` -/")
 		g.p("def sendArms : List String := %s", leanStrList(arms))
 	}
+	props["C06"] = func(g *gen) {
+		// what Proxy.Run does before its loop, statement by statement (comments and log lines left out): every start of Run stops
+		// the pipe that is left over and builds a fresh one
+		run := g.methodDecl(fProxy, "Proxy", "Run")
+		var pre []string
+		for _, st := range run.Body.List {
+			if _, ok := st.(*ast.ForStmt); ok {
+				break
+			}
+			if is, ok := st.(*ast.IfStmt); ok {
+				var body []string
+				for _, b := range is.Body.List {
+					body = append(body, oneLine(g.src(b)))
+				}
+				pre = append(pre, "if "+oneLine(g.src(is.Cond))+" { "+strings.Join(body, "; ")+" }")
+				continue
+			}
+			pre = append(pre, oneLine(g.src(st)))
+		}
+		g.p("/-- the statements of `Proxy.Run` before its loop -/")
+		g.p("def runPrelude : List String := %s", leanStrList(pre))
+	}
 }
